@@ -659,7 +659,7 @@ def _compress_runs(runs):
 
 _RE_ACC = re.compile(r'<<"ACC", (\d+)>>')
 _RE_AT = re.compile(r'<<"AT", (\d+), (\d+)>>')
-_RE_CL = re.compile(r'<<"CL", (\d+), (\d+), (\[.*\])\s*>>')
+_RE_CL = re.compile(r'<<"CL", (\d+), (\d+), ([\[{].*[\]}])\s*>>')
 
 
 def _no_null(x):
@@ -698,7 +698,7 @@ def validate_traces(ctx, module, traces, what='', chunk=20000, timeout=1200, wor
                 flags[base + k] = (k + 1) in acc
             rej = [k for k in range(len(part)) if (k + 1) not in acc]
             if rej and diag:
-                sub = [part[k] for k in rej[:200]]
+                sub = [part[k] for k in rej[:1000]]
                 with open(fn, 'w') as f:
                     json.dump(_no_null(sub), f)
                 res2 = run_tlc(module, cfg, workers=1, timeout=timeout, env={'TRACE_FILE': fn, 'DIAG': '1'}, xmx='4g')
@@ -712,10 +712,10 @@ def validate_traces(ctx, module, traces, what='', chunk=20000, timeout=1200, wor
                     m = _RE_CL.search(line)
                     if m:
                         cl[(int(m.group(1)), int(m.group(2)))] = m.group(3)
-                for j, k in enumerate(rej[:200], start=1):
+                for j, k in enumerate(rej[:1000], start=1):
                     l = at.get(j, 1)
                     clause_text = cl.get((j, l), '')
-                    failed = re.findall(r'(\w+) \|-> FALSE', clause_text)
+                    failed = re.findall(r'(\w+) \|-> FALSE', clause_text) or re.findall(r'"(\w+)"', clause_text)
                     diags[base + k] = dict(stuck_at_event=l, failed_clauses=failed,
                                            event=(part[k]['ev'][l - 1] if 'ev' in part[k] and l - 1 < len(part[k]['ev']) else None))
         finally:
